@@ -31,6 +31,7 @@ HEALTHY = [
     b"password = 'hunter2'\nimport telnetlib\n",                                # B105 B401
     b"def f(x):\n    assert x\n    exec('1')\n",                                # B101 B102
     b"import hashlib\nhashlib.md5(b'x')\ntry:\n    pass\nexcept Exception:\n    pass\n",   # B324 B110
+    b"helper(cmd, shell=True)\nimport ssl, yaml\nssl.wrap_socket(s, ssl_version=ssl.PROTOCOL_SSLv3)\nyaml.load(x)\nRSA.generate(512)\n",   # B604 B502 B506 (Call checks late in the order)
 ]
 # a file with findings *before* the construct at which an injected visitor/check fault strikes, and which binds aliases
 # that would change another file's findings if per-file visitor state leaked
@@ -65,6 +66,10 @@ def materialise(spec):
         return pre + b"x = " + b"f(" * n + b"1" + b")" * n + b"\n"
     if g == "deep_attr":
         return pre + b"x = a" + b".b" * n + b"\n"
+    if g == "deep_call_chain":
+        # a parsable program whose CHECKS run out of stack before the visitor does (each `.g()` is a Call node: ~30 checks run on it at a depth that grows with
+        # the chain), then the visitor gives up and the file is skipped
+        return pre + b"x = f()" + b".g()" * n + b"\n"
     if g == "deep_binop":
         return pre + b"x = 1" + b"+1" * n + b"\n"
     if g == "deep_unary":
@@ -220,6 +225,9 @@ CONTENT_FAULTS = {
     "truncated_def": b"import pickle\ndef f(a, b",
     "deep_unary_memoryerror": {"gen": "deep_unary", "n": 12000},
     "deep_attr_recursion": {"gen": "deep_attr", "n": 2500},
+    # checks raise RecursionError on the deep Call nodes before the visitor itself gives up: what happens to a check on this file must not follow it into the
+    # next file (seeded change C04-m11 kept raising checks in a class-level set and skipped them from then on)
+    "deep_call_chain_checks_raise": {"gen": "deep_call_chain", "n": 800},
     "too_many_parens": {"gen": "deep_paren", "n": 400},
 }
 
@@ -837,7 +845,7 @@ def with_faulty(n, pos, faulty_src, kind=None, faulty_name=None, **kw):
                 nm = "%02d_dir/faulty.py" % i
             files.append({"name": nm, "role": "faulty", "src": faulty_src})
         else:
-            files.append({"name": "%02d_healthy.py" % i, "role": "healthy", "src": {"healthy": h}})
+            files.append({"name": "%02d_healthy.py" % i, "role": "healthy", "src": {"healthy": (5 * h + n) % len(HEALTHY)}})
             h += 1
     scn = {"files": files, "fault": {"kind": kind, "target": pos} if kind else None}
     scn.update(kw)
@@ -1122,6 +1130,12 @@ def _run(res, ctx):
             res.case(label, True, sample={"label": label})
             return
 
+        # the reference "this healthy file scanned alone" is taken BEFORE any faulty file has been scanned in this process (whatever a faulty file leaves behind
+        # must not be part of the reference)
+        for hsrc in HEALTHY:
+            for ign in (False, True):
+                for dbg in (False, True):
+                    alone(scratch, hsrc, ign, dbg)
         # ---- (0) directory targets next to explicitly named files
         mixed_target_sets(res, scratch)
         # ---- (1) fault enumeration
